@@ -13,7 +13,7 @@ static const struct fam FT[] = {{"AC", 3, 5, 0, 4}, {"ACG", 3, 3, 0, 4}, {"AC", 
 static const int DT[] = {KALIGN_TYPE_UNDEFINED, KALIGN_TYPE_DNA, KALIGN_TYPE_DNA_INTERNAL, KALIGN_TYPE_RNA};
 static const int PT[] = {KALIGN_TYPE_UNDEFINED, KALIGN_TYPE_PROTEIN, KALIGN_TYPE_PROTEIN_DIVERGENT};
 #define NMANY 48        /* 20..99-sequence sets built from few distinct sequences */
-#define NLONG 8         /* long duplicated sequence plus shorter relatives at substring edit distance exactly 256 / 512 */
+#define NLONG 96         /* long duplicated sequence plus shorter relatives at substring edit distance exactly 256 / 512 */
 
 static const struct fam* fams(int tier, int* n)
 {
@@ -68,7 +68,7 @@ static void decode(uint64_t id, int tier, struct dcase* c)
                 int k = (int)(id - NMANY);
                 int target = (k & 1) ? 512 : 256;
                 int L = (k & 2) ? 1400 : 1000;
-                int layout = k >> 2;
+                int layout = (k >> 2) & 1;
                 uint64_t st = 4711 + (uint64_t)k + (uint64_t)vh_seed;
                 static char A[2048], X[2048], Y[2048];
                 static uint8_t ua[2048], ux[2048];
@@ -76,7 +76,7 @@ static void decode(uint64_t id, int tier, struct dcase* c)
                 c->many = 1000 + k;
                 c->protein = 0;
                 c->type = KALIGN_TYPE_UNDEFINED;
-                sh_random_seq(&st, "ACGT", L, A);
+                sh_random_seq(&st, (k & 8) ? "AC" : ((k & 16) ? "ACG" : "ACGT"), L, A);      /* low-complexity sequences make gap placement ambiguous */
                 for(r = 0; r < 2; r++){
                         char* R = r ? Y : X;
                         int skip = 5 + 9 * r, len = L - 21 - 31 * r, nsub = 0, pos = 2;
@@ -99,6 +99,11 @@ static void decode(uint64_t id, int tier, struct dcase* c)
                                         int need = target - d, q;
                                         for(q = 0; q < need && pos < len; q++, pos += 3){
                                                 R[pos] = R[pos] == 'A' ? 'C' : 'A';
+                                                if((k & 32) && q % 5 == 4 && pos + 1 < len){
+                                                        /* a deletion now and then: indels give the relatives different gap structures */
+                                                        memmove(R + pos, R + pos + 1, (size_t)(len - pos));
+                                                        len--;
+                                                }
                                                 nsub++;
                                         }
                                 }
